@@ -105,7 +105,10 @@ func (fs *ReadOnlyFS) copyFile(name string, f hackpadfs.File, info hackpadfs.Fil
 	}
 	buf := make([]byte, 512)
 	_, err = io.CopyBuffer(destFileWriter, f, buf)
-	return err
+	if err != nil {
+		return &hackpadfs.PathError{Op: "open", Path: name, Err: err}
+	}
+	return nil
 }
 
 // Stat implements hackpadfs.StatFS
